@@ -42,6 +42,7 @@
 import GraphiqModel.Proofs.LC
 import GraphiqModel.Proofs.LCSeqTerm
 import GraphiqModel.Proofs.LCRepair
+import GraphiqModel.Proofs.LCAssemble
 namespace Graphiq.C09
 open Graphiq Graphiq.LC Graphiq.PRow Graphiq.Tab
 
@@ -533,6 +534,25 @@ theorem same_orbit_restricts_to_components (n : Nat) (A B : Adj) (hA : Simple n 
   obtain ⟨w, hw, hwv⟩ := restrict_valid n A B hA hB hcomps v hv hval c hc
   obtain ⟨hpos, hlt, hsa, _⟩ := component_facts n A hA c hc
   exact (valid_clifford_iff_same_orbit c.length _ _ hpos hsa (sub_simple n B hB c hlt)).mp ⟨w, hw, hwv⟩
+
+/-- **LC equivalence is decided component by component** (the mathematical content of the repair, both directions, every n):
+    two graphs are in the same LC orbit iff they have the same connected components as vertex sets and the induced subgraphs
+    on every component are in the same LC orbit.  (⇒ `components_are_lc_invariant`, `same_orbit_restricts_to_components`;
+    ⇐ block-diagonal assembly of one valid local Clifford per component, then the constructive direction on the whole pair.)
+    So the repaired function is complete exactly as far as `_is_lc_equivalent_component` is complete on connected graphs. -/
+theorem same_orbit_iff_componentwise (n : Nat) (A B : Adj) (hn : 0 < n) (hA : Simple n A) (hB : Simple n B) :
+    SameOrbit n A B ↔
+      connectedComponents n A = connectedComponents n B ∧
+        ∀ c ∈ connectedComponents n A, SameOrbit c.length (subAdj A c) (subAdj B c) := by
+  constructor
+  · intro h
+    exact ⟨components_are_lc_invariant n A B hA h, fun c hc => same_orbit_restricts_to_components n A B hA hB h c hc⟩
+  · rintro ⟨hcomps, hsub⟩
+    apply (valid_clifford_iff_same_orbit n A B hn hA hB).mp
+    apply assemble_valid n A B hA hB hcomps
+    intro c hc
+    obtain ⟨_, _, hsa, _⟩ := component_facts n A hA c hc
+    exact lc_equivalent_graphs_have_a_valid_clifford c.length _ _ hsa (hsub c hc)
 
 /-- **a `no` of the repaired function is right whenever it is taken because the component partitions differ, or on the
     full-rank shortcut / after the exhaustive search (dimension ≤ 4) in the failing component** -/
